@@ -166,7 +166,7 @@ func File(path string, src []byte) ([]byte, int, error) {
 			i = -1
 		}
 		j := bytes.IndexByte(out[i+1:], '\n') + i + 1
-		out = append(append(append([]byte{}, out[:j+1]...), []byte("\nimport \"" + commonPath + "\"\n")...), out[j+1:]...)
+		out = append(append(append([]byte{}, out[:j+1]...), []byte("\nimport \""+commonPath+"\"\n")...), out[j+1:]...)
 	}
 	return out, r.count, nil
 }
